@@ -1122,6 +1122,12 @@ func operandsCompiledInSourceOrder(c *core.Ctx) {
 			for i := range ss {
 				for j := range ss {
 					if i != j && (ss[i].recv == ss[j].recv || core.SameStorage(ss[i].recv, ss[j].recv)) && instrReaches(ss[i].in, ss[j].in) && !twice[name] {
+						if compiledAgainOnlyWhenALeaf(p, fn, name, ss[j].recv, ss[j].in) {
+							// the second evaluation happens only for a name or a literal
+							c.Pass(core.SSAName(fn)+"|"+name+"-compiled-once", p.Pos(ss[j].in.Pos()), fn.Name()+" compiles "+name+"() a second time only on the path on which a predicate has shown it to be a leaf of the syntax tree (a name or a literal), whose evaluation has no effect")
+							twice[name] = true
+							continue
+						}
 						twice[name] = true
 						n++
 						c.Check(false, core.SSAName(fn)+"|"+name+"-compiled-once", p.Pos(ss[j].in.Pos()),
@@ -1672,4 +1678,137 @@ func fragmentsAreRebased(c *core.Ctx) {
 		c.Pass("parser|no-nested-parse", "", "the parser does not parse fragments with a nested run")
 	}
 	c.Stat("nested_parses", n)
+}
+
+// compiledAgainOnlyWhenALeaf: fn applies a leaf predicate to recv.name(), and
+// the branch taken when the predicate is false cannot reach instruction at.
+// A leaf predicate is a function of one syntax-tree node that only tests its
+// dynamic type against node types without children.
+func compiledAgainOnlyWhenALeaf(p *core.Program, fn *ssa.Function, name string, recv ssa.Value, at ssa.Instruction) bool {
+	for _, b := range fn.Blocks {
+		for _, in := range b.Instrs {
+			call, ok := in.(*ssa.Call)
+			if !ok {
+				continue
+			}
+			pred := call.Call.StaticCallee()
+			if pred == nil || !core.RepoFunc(pred) || len(call.Call.Args) != 1 || !isLeafPredicate(p, pred) {
+				continue
+			}
+			// the argument is recv.name()
+			same := false
+			for _, o := range core.Origins(call.Call.Args[0]) {
+				if mi, ok := o.(*ssa.MakeInterface); ok {
+					o = mi.X
+				}
+				if ch, ok := o.(*ssa.ChangeInterface); ok {
+					o = ch.X
+				}
+				ac, ok := o.(*ssa.Call)
+				if !ok {
+					continue
+				}
+				an := ""
+				var ar ssa.Value
+				if ac.Call.IsInvoke() {
+					an, ar = ac.Call.Method.Name(), ac.Call.Value
+				} else if cal := ac.Call.StaticCallee(); cal != nil && cal.Signature.Recv() != nil && len(ac.Call.Args) > 0 {
+					an, ar = cal.Name(), ac.Call.Args[0]
+				}
+				if an == name && (ar == recv || core.SameStorage(ar, recv)) {
+					same = true
+				}
+			}
+			if !same || call.Referrers() == nil {
+				continue
+			}
+			for _, r := range *call.Referrers() {
+				var iff *ssa.If
+				falseSucc := 1
+				switch x := r.(type) {
+				case *ssa.If:
+					iff = x
+				case *ssa.UnOp:
+					if x.Op == token.NOT && x.Referrers() != nil {
+						for _, r2 := range *x.Referrers() {
+							if i2, ok := r2.(*ssa.If); ok {
+								iff, falseSucc = i2, 0
+							}
+						}
+					}
+				}
+				if iff == nil {
+					continue
+				}
+				fb := iff.Block().Succs[falseSucc]
+				if len(fb.Instrs) > 0 && fb != at.Block() && !instrReaches(fb.Instrs[0], at) {
+					return true
+				}
+			}
+		}
+	}
+	return false
+}
+
+func isLeafPredicate(p *core.Program, f *ssa.Function) bool {
+	if f.Blocks == nil || len(f.Params) != 1 || f.Signature.Results().Len() != 1 {
+		return false
+	}
+	if b, ok := f.Signature.Results().At(0).Type().Underlying().(*types.Basic); !ok || b.Kind() != types.Bool {
+		return false
+	}
+	asserts := 0
+	for _, b := range f.Blocks {
+		for _, in := range b.Instrs {
+			switch x := in.(type) {
+			case *ssa.TypeAssert:
+				pt, ok := x.AssertedType.(*types.Pointer)
+				if !ok {
+					return false
+				}
+				nt := core.NamedOf(pt)
+				if nt == nil || nt.Obj().Pkg() == nil || core.RelPkg(nt.Obj().Pkg()) != "ast" {
+					return false
+				}
+				st, ok := nt.Underlying().(*types.Struct)
+				if !ok {
+					return false
+				}
+				for i := 0; i < st.NumFields(); i++ {
+					if holdsSyntax(st.Field(i).Type(), 0) {
+						return false
+					}
+				}
+				asserts++
+			case *ssa.Extract, *ssa.If, *ssa.Jump, *ssa.Return, *ssa.Phi, *ssa.DebugRef:
+			default:
+				return false
+			}
+		}
+	}
+	return asserts > 0
+}
+
+// holdsSyntax: t is (or contains) an interface type of package ast.
+func holdsSyntax(t types.Type, d int) bool {
+	if d > 4 {
+		return false
+	}
+	if nt := core.NamedOf(t); nt != nil && nt.Obj().Pkg() != nil && core.RelPkg(nt.Obj().Pkg()) == "ast" {
+		if _, ok := nt.Underlying().(*types.Interface); ok {
+			return true
+		}
+		if _, ok := t.(*types.Pointer); ok {
+			return true // a pointer to another node
+		}
+	}
+	switch u := t.Underlying().(type) {
+	case *types.Slice:
+		return holdsSyntax(u.Elem(), d+1)
+	case *types.Map:
+		return holdsSyntax(u.Key(), d+1) || holdsSyntax(u.Elem(), d+1)
+	case *types.Pointer:
+		return holdsSyntax(u.Elem(), d+1)
+	}
+	return false
 }
